@@ -8,7 +8,7 @@ Section PIstep.
 Context (cs : amap pconf).
 Lemma PI_shutdown s o th e s' : step_shutdown s th e = Some s' -> PI_goal cs s o th e s'.
 Proof.
-  intros H f f' HR Hf HO HT j x xo x' xo' Hx Hxo [Pa Pc Ps Pd Pl] Hx' Hxo'.
+  intros H f f' HR Hf HO HT j x xo x' xo' Hx Hxo [Pa Pc Pd Pl] Hx' Hxo'.
   pose proof (rc_th _ _ _ HR) as Hrth.
   destruct e; try solve [kind_cases H; pi_leaf j s x].
   (* EShutdownOrder *)
@@ -16,13 +16,8 @@ Proof.
   unfold obs_step in Hxo'. cbn [fst snd ev_inst] in Hxo'. cbv zeta in Hxo'.
   change (fun x : oinst => x <| o_stopreq := true |> <| o_insnap := true |>) with snap_upd in Hxo'.
   autorewrite with obsn in Hxo'. cbn in Hxo'. rewrite fold_snap_get in Hxo'. cbn in Hxo'. rewrite Hxo in Hxo'. cbn in Hxo'.
-  injection Hxo' as <-. cbn [extra] in Hf.
-  destruct (memN j order) eqn:Em.
-  - assert (Hc : f' = false -> f = false /\ o_commit xo = false).
-    { intros F. destruct (Hf F) as [A B]. split; [exact A|].
-      pose proof (existsb_memN_false _ _ _ B Em) as C. cbn in C. now rewrite (oi_get_some _ _ _ Hxo) in C. }
-    clear Hf. unfold snap_upd. pi_fin Hxo Hc.
-  - pi_fin Hxo Hf.
+  injection Hxo' as <-.
+  cbn [LemC12Obs3.extra1] in Hf. destruct (memN j order) eqn:Em; unfold snap_upd; pi_fin Hxo Hf.
 Qed.
 
 End PIstep.
